@@ -48,6 +48,8 @@ pub(crate) fn functions() -> &'static HashMap<&'static str, ForeignFunction> {
         insert_function!(quantity_cast, 2..=2);
         insert_function!("parse", parse, 1..=1);
         insert_function!("args", args_, 0..=0);
+        #[cfg(feature = "verif-hooks")]
+        insert_function!("__verif_sym", verif_sym, 1..=1);
 
         // Math
         insert_function!("mod", mod_, 2..=2);
@@ -278,4 +280,21 @@ fn args_(
         .map(|s| Value::String(s.into()))
         .collect();
     Ok(args.into())
+}
+
+#[cfg(feature = "verif-hooks")]
+unsafe extern "C" {
+    fn verif_f64(id: u32) -> f64;
+}
+
+/// Verification hook: `fn __verif_sym(i: Scalar) -> Scalar` returns the i-th
+/// input scalar supplied by the harness that links this crate.
+#[cfg(feature = "verif-hooks")]
+fn verif_sym(
+    _ctx: &mut FfiContext,
+    mut args: Args,
+    _return_type: &TypeScheme,
+) -> Result<Value, Box<RuntimeErrorKind>> {
+    let i = scalar_arg!(args).to_f64();
+    return_scalar!(unsafe { verif_f64(i as u32) })
 }
